@@ -149,7 +149,13 @@ def shift_schema(data, delta: int, target: str):
 
 
 def plain_record(length: int, circular: bool, rec: int, seq: str = None):
-    return DummyRecord(seq=seq or "A" * length, circular=circular, record_id=f"rec{rec}")
+    """ record 0 is "rec0"; record 1 is the second record of an input in which two records were called "rec0": it was
+        renamed to "rec0_0" and remembers the name it had (results saved for "rec0" are still those of another record) """
+    if rec == 0:
+        return DummyRecord(seq=seq or "A" * length, circular=circular, record_id="rec0")
+    record = DummyRecord(seq=seq or "A" * length, circular=circular, record_id="rec0_0")
+    record.original_id = "rec0"
+    return record
 
 
 def gene_record(case: dict, rec: int, seq: str = None):
@@ -710,7 +716,7 @@ def sideload_case(rng: random.Random, tag: str) -> dict:
         if rng.random() < 0.7:
             tool["configuration"] = {"setting1": "value", "multi-setting": ["first", "second"]}
         return {"tool": tool, "records": [{"name": "rec0", "subregions": subs, "protoclusters": protos},
-                                           {"name": "rec1", "subregions": subs, "protoclusters": protos},
+                                           {"name": "rec0_0", "subregions": subs, "protoclusters": protos},
                                            {"name": "some-other-record", "subregions": [{"start": 1, "end": 50, "label": "elsewhere"}]}]}
 
     def arguments():
@@ -719,7 +725,7 @@ def sideload_case(rng: random.Random, tag: str) -> dict:
         if rng.random() < 0.6 or not files:
             start, end = span()
             if start < end:
-                simple = [rng.choice(["rec0", "rec1"]) if rng.random() < 0.2 else "rec0", start, end]
+                simple = [rng.choice(["rec0", "rec0_0"]) if rng.random() < 0.2 else "rec0", start, end]
         markers = [f"g{rng.randrange(1, len(genes) + 1)}" for _ in range(rng.randrange(0, 3))]
         if simple and simple[0] != "rec0":
             simple = ["rec0", simple[1], simple[2]]
